@@ -52,6 +52,73 @@ func hasMutator(v any) bool {
 	return false
 }
 
+// srcUntouchable reports whether the plan provably has no documented way to
+// change $.src: it has no mutator call at all, or every mutator call is
+// [set|setall "$.asm…" <scalar literal>] or [del|delall "$.asm…"] (nothing
+// that came from src is ever stored under asm, so nothing under asm can alias
+// src). Any other shape counts as "may target $.src" and is left to the
+// semantic oracle.
+func srcUntouchable(v any) bool {
+	switch t := v.(type) {
+	case []any:
+		if len(t) > 0 {
+			if name, _ := t[0].(string); mutators[name] {
+				if len(t) < 2 || !asmPath(t[1]) {
+					return false
+				}
+				switch name {
+				case "set", "setall":
+					if len(t) != 3 || !scalarLiteral(t[2]) {
+						return false
+					}
+				default:
+					if len(t) != 2 {
+						return false
+					}
+				}
+				return true
+			}
+		}
+		for _, e := range t {
+			if !srcUntouchable(e) {
+				return false
+			}
+		}
+	case map[string]any:
+		for _, e := range t {
+			if !srcUntouchable(e) {
+				return false
+			}
+		}
+	}
+	return true
+}
+
+func asmPath(v any) bool {
+	s, ok := v.(string)
+	if !ok || !strings.HasPrefix(s, "$.asm") {
+		return false
+	}
+	rest := s[len("$.asm"):]
+	if rest == "" {
+		return true
+	}
+	if rest[0] != '.' && rest[0] != '[' {
+		return false
+	}
+	return !strings.Contains(rest, "..") // no descent
+}
+
+func scalarLiteral(v any) bool {
+	switch t := v.(type) {
+	case nil, bool, int64, float64:
+		return true
+	case string:
+		return t == "" || (t[0] != '$' && t[0] != '@')
+	}
+	return false
+}
+
 // env is the per-worker state of the judge.
 type env struct {
 	fns     map[string]bool
@@ -235,7 +302,7 @@ type compiled struct {
 }
 
 func (e *env) compile(arr []any, fn string) *compiled {
-	cp := &compiled{arr: arr, fn: fn, mut: hasMutator(arr)}
+	cp := &compiled{arr: arr, fn: fn, mut: !srcUntouchable(arr)}
 	var pv any
 	if cp.p, pv = newPlan(clone(arr).([]any)); pv != nil {
 		// NewPlan has no error result: only a runtime fault counts (DESIGN §2.5)
@@ -474,7 +541,11 @@ func (e *env) judgeRoot(cp *compiled, ri int) (out []finding) {
 	if !cp.mut {
 		e.cnt["src_compared"]++
 		if !eqStrict(r1.root["src"], e.srcs[ri], 0) {
-			add("src-mutated", "no-mutator-in-plan", "src="+show(e.srcs[ri]), "src="+show(r1.root["src"]))
+			detail := "no-mutator-in-plan"
+			if hasMutator(cp.arr) {
+				detail = "mutators-confined-to-asm"
+			}
+			add("src-mutated", detail, "src="+show(e.srcs[ri]), "src="+show(r1.root["src"]))
 		}
 	}
 	return
